@@ -435,10 +435,21 @@ impl LocalesOrNamespaces {
         warnings: &Warnings,
     ) -> Result<()> {
         let mut key_path = KeyPath::new(namespace);
+        // the key paths where at least one locale declares a plural
+        let mut plural_keys = BTreeSet::new();
 
-        for locale in locales {
+        for locale in &mut *locales {
             let top_locale = locale.name.clone();
-            locale.merge_plurals(top_locale.clone(), &mut key_path, warnings)?;
+            locale.merge_plurals_tracked(top_locale, &mut key_path, &mut plural_keys, warnings)?;
+        }
+
+        // A locale whose plural rules only use the "other" category (japanese for example) declares `key_other` alone,
+        // this is still the plural `key` that the other locales declare.
+        if !plural_keys.is_empty() {
+            for locale in locales {
+                let top_locale = locale.name.clone();
+                locale.merge_lone_plurals(top_locale, &mut key_path, &plural_keys)?;
+            }
         }
 
         Ok(())
@@ -556,6 +567,17 @@ impl Locale {
         key_path: &mut KeyPath,
         warnings: &Warnings,
     ) -> Result<()> {
+        self.merge_plurals_tracked(locale, key_path, &mut BTreeSet::new(), warnings)
+    }
+
+    /// Same as `merge_plurals`, the key path of every created plural is added to `plural_keys`.
+    pub fn merge_plurals_tracked(
+        &mut self,
+        locale: Key,
+        key_path: &mut KeyPath,
+        plural_keys: &mut BTreeSet<KeyPath>,
+        warnings: &Warnings,
+    ) -> Result<()> {
         let keys = std::mem::take(&mut self.keys);
         // the candidate forms of a base key are kept in a Vec and not in a map keyed by the form:
         // `x_one` and `x_ordinal_one` have the same form, one must not silently replace the other.
@@ -567,7 +589,7 @@ impl Locale {
         for (key, mut value) in keys {
             if let ParsedValue::Subkeys(Some(subkeys)) = &mut value {
                 key_path.push_key(key.clone());
-                subkeys.merge_plurals(locale.clone(), key_path, warnings)?;
+                subkeys.merge_plurals_tracked(locale.clone(), key_path, plural_keys, warnings)?;
                 key_path.pop_key();
             }
             if let Some((base_key, rule_type, plural_form)) = Self::is_possible_plural(&key, &value)
@@ -620,8 +642,66 @@ impl Locale {
                 other: Box::new(other),
             };
             plural.check_forms(&locale, key_path, warnings)?;
+            plural_keys.insert(key_path.clone());
             let value = ParsedValue::Plurals(plural);
             let key = key_path.pop_key().unwrap_at("merge_plurals_3");
+            if self.keys.insert(key.clone(), value).is_some() {
+                key_path.push_key(key);
+                return Err(Error::PluralsAtNormalKey {
+                    locale,
+                    key_path: std::mem::take(key_path),
+                }
+                .into());
+            }
+        }
+
+        Ok(())
+    }
+
+    /// Second pass of the plurals merging: `key_other` (or `key_ordinal_other`) declared alone
+    /// is the plural `key` if `key` is a plural in at least one locale.
+    pub fn merge_lone_plurals(
+        &mut self,
+        locale: Key,
+        key_path: &mut KeyPath,
+        plural_keys: &BTreeSet<KeyPath>,
+    ) -> Result<()> {
+        let keys = std::mem::take(&mut self.keys);
+        let mut lone_plurals = vec![];
+        for (key, mut value) in keys {
+            if let ParsedValue::Subkeys(Some(subkeys)) = &mut value {
+                key_path.push_key(key.clone());
+                subkeys.merge_lone_plurals(locale.clone(), key_path, plural_keys)?;
+                key_path.pop_key();
+            }
+            let plural_key = match Self::is_possible_plural(&key, &value) {
+                Some((base_key, rule_type, PluralForm::Other))
+                    if !matches!(value, ParsedValue::Plurals(_)) =>
+                {
+                    Key::new(base_key).map(|base_key| (base_key, rule_type))
+                }
+                _ => None,
+            };
+            let Some((base_key, rule_type)) = plural_key else {
+                self.keys.insert(key, value);
+                continue;
+            };
+            key_path.push_key(base_key);
+            let is_plural = plural_keys.contains(key_path);
+            let base_key = key_path.pop_key().unwrap_at("merge_lone_plurals_1");
+            if is_plural {
+                lone_plurals.push((base_key, rule_type, value));
+            } else {
+                self.keys.insert(key, value);
+            }
+        }
+        for (key, rule_type, other) in lone_plurals {
+            let value = ParsedValue::Plurals(Plurals {
+                rule_type,
+                forms: BTreeMap::new(),
+                count_key: Key::count(),
+                other: Box::new(other),
+            });
             if self.keys.insert(key.clone(), value).is_some() {
                 key_path.push_key(key);
                 return Err(Error::PluralsAtNormalKey {
